@@ -159,6 +159,7 @@ type State struct {
 type borrowedMem struct {
 	base, off, ln *Term
 	what          string
+	key           string // elems heap key of the borrowed slice
 }
 
 func (st *State) clone() *State {
@@ -304,6 +305,9 @@ func (fv *FuncVer) setRootValue(st *State, l *Loc, v Val) {
 			panic(unsupported("store through a read-only byte view of an opaque array"))
 		}
 		for _, b := range st.borrowed {
+			if k, _ := fv.elemsKey(l.Typ); k != b.key {
+				continue // other element type: cannot be the same backing array
+			}
 			// a store into the live part [off, off+len) of memory borrowed from a callee
 			goal := Not(Eq(l.Ref, b.base))
 			if len(l.Path) > 0 && l.Path[0].Index != nil {
